@@ -1,13 +1,193 @@
 /-
   C17 — luminance views are consistent and bilevel images binarise exactly.
+  Property theorems only; helper lemmas live in Gzx/Proofs/{ExceptList,Binarizer,Luminance}.lean.
+  Models: Gzx/Model/Luminance.lean, Gzx/Model/Binarizer.lean (tied to the root package of gozxing by the
+  `c17` correspondence suites; the models mirror the code after the D12 repair of Crop).
 -/
-import Gzx.Model.Luminance
-import Gzx.Model.Binarizer
+import Gzx.Proofs.Binarizer
 namespace Gzx.Properties.C17
-open Gzx Gzx.Luminance Gzx.Binarizer
+open Gzx Gzx.Binarizer
 
-/-- double inversion returns the original object -/
-theorem invert_involutive (v : View) : invert (invert v) = v := by
-  cases v; simp [invert]
+/-! ## Part B — binarisers -/
+
+/-- a luminance array containing only pure black (0) and pure white (255) -/
+def Bilevel (lum : Array Nat) : Prop := ∀ (i p : Nat), lum[i]? = some p → p = 0 ∨ p = 255
+
+/-- **Local (hybrid) method, any grey image of at least 40x40 pixels**: `HybridBinarizer.GetBlackMatrix`
+    never panics (all block, neighbour and 5x5-window indices are in range, also for sizes that are not
+    multiples of 8), only sets bits inside the matrix, never sets a pixel of value 255 and sets every
+    pixel of value 0.  Key invariant: every 8x8 block black point is ≤ 254. -/
+theorem hybrid_zero_black_255_white (lum : Array Nat) (w h : Nat) (hw : 40 ≤ w) (hh : 40 ≤ h)
+    (hsz : lum.size = w * h) :
+    ∃ sets, hybridSets lum w h = .ok sets ∧
+      (∀ X Y, (X, Y) ∈ sets → X < w ∧ Y < h ∧ ∃ p, lum[Y * w + X]? = some p ∧ p % 256 ≠ 255) ∧
+      (∀ X Y p, X < w → Y < h → lum[Y * w + X]? = some p → p % 256 = 0 → (X, Y) ∈ sets) := by
+  obtain ⟨sets, hs, h1, h2⟩ := hybridSets_local lum w h hsz hw hh
+  refine ⟨sets, hs, ?_, h2⟩
+  intro X Y hXY
+  obtain ⟨a, b, p, hp, hle⟩ := h1 X Y hXY
+  exact ⟨a, b, p, hp, by omega⟩
+
+/-- **`hybrid_bilevel_exact`** — property clause "an image containing only pure black and pure white is
+    binarised to exactly its black pixels" for the local method (`w ≥ 40`, `h ≥ 40`):
+    the set bits of the black matrix are exactly the pixels of luminance 0, for every image size
+    (incl. sizes that are not multiples of 8, where the last block is clamped to `w-8` / `h-8`). -/
+theorem hybrid_bilevel_exact (lum : Array Nat) (w h : Nat) (hw : 40 ≤ w) (hh : 40 ≤ h)
+    (hsz : lum.size = w * h) (hbi : Bilevel lum) :
+    ∃ sets, hybridSets lum w h = .ok sets ∧
+      (∀ X Y, (X, Y) ∈ sets → X < w ∧ Y < h) ∧
+      (∀ X Y, X < w → Y < h → ((X, Y) ∈ sets ↔ lum[Y * w + X]? = some 0)) := by
+  obtain ⟨sets, hs, h1, h2⟩ := hybrid_zero_black_255_white lum w h hw hh hsz
+  refine ⟨sets, hs, fun X Y hXY => ⟨(h1 X Y hXY).1, (h1 X Y hXY).2.1⟩, ?_⟩
+  intro X Y hX hY
+  constructor
+  · intro hXY
+    obtain ⟨_, _, p, hp, hne⟩ := h1 X Y hXY
+    rcases hbi _ p hp with rfl | rfl
+    · exact hp
+    · simp at hne
+  · intro hp
+    exact h2 X Y 0 hX hY hp (by simp)
+
+/-- non-vacuity: a 40x41 picture with both colours satisfies the hypotheses -/
+example : let lum : Array Nat := Array.ofFn (n := 40 * 41) (fun i => if i.val % 3 = 0 then 0 else 255)
+    lum.size = 40 * 41 ∧ Bilevel lum := by
+  refine ⟨by simp, ?_⟩
+  intro i p hp
+  simp only [Array.getElem?_ofFn] at hp
+  split at hp
+  · cases hp; split <;> simp
+  · cases hp
+
+/-- **Global method, any grey image**: `GlobalHistogramBinarizer.GetBlackMatrix` never panics on a
+    non-empty `w x h` image; it either answers NotFound (too little contrast between the two histogram
+    peaks of the sampled pixels) or thresholds every pixel against one black point in `[8, 240]`. -/
+theorem global_threshold_or_notfound (lum : Array Nat) (w h : Nat) (hw : 1 ≤ w) (hh : 1 ≤ h)
+    (hsz : lum.size = w * h) :
+    globalSets lum w h = .error .notFound ∨
+    ∃ sets bp, globalSets lum w h = .ok sets ∧ 8 ≤ bp ∧ bp ≤ 240 ∧
+      ∀ X Y, (X, Y) ∈ sets ↔ (X < w ∧ Y < h ∧ ∃ p, lum[Y * w + X]? = some p ∧ p % 256 < bp) :=
+  globalSets_spec lum w h hsz hw hh
+
+/-- **`global_bilevel_exact_or_notfound`** — the same clause for the global histogram method (used by
+    `GlobalHistogramBinarizer` and by `HybridBinarizer` below 40 pixels): a pure black/white image is
+    binarised to exactly its black pixels, or rejected with NotFound. -/
+theorem global_bilevel_exact_or_notfound (lum : Array Nat) (w h : Nat) (hw : 1 ≤ w) (hh : 1 ≤ h)
+    (hsz : lum.size = w * h) (hbi : Bilevel lum) :
+    globalSets lum w h = .error .notFound ∨
+    ∃ sets, globalSets lum w h = .ok sets ∧
+      (∀ X Y, (X, Y) ∈ sets → X < w ∧ Y < h) ∧
+      (∀ X Y, X < w → Y < h → ((X, Y) ∈ sets ↔ lum[Y * w + X]? = some 0)) := by
+  rcases globalSets_spec lum w h hsz hw hh with hnf | ⟨sets, bp, hs, b1, b2, hmem⟩
+  · left; exact hnf
+  · right
+    refine ⟨sets, hs, fun X Y hXY => ⟨((hmem X Y).mp hXY).1, ((hmem X Y).mp hXY).2.1⟩, ?_⟩
+    intro X Y hX hY
+    rw [hmem X Y]
+    constructor
+    · rintro ⟨_, _, p, hp, hlt⟩
+      rcases hbi _ p hp with rfl | rfl
+      · exact hp
+      · simp at hlt; omega
+    · intro hp
+      exact ⟨hX, hY, 0, hp, by simp; omega⟩
+
+/-- the hybrid binariser below 40 pixels in either dimension is the global method -/
+theorem hybrid_small_is_global (lum : Array Nat) (w h : Nat) (hs : w < 40 ∨ h < 40) :
+    hybridSets lum w h = globalSets lum w h := by
+  unfold hybridSets MINIMUM_DIMENSION
+  have : ¬ (w ≥ 40 ∧ h ≥ 40) := by omega
+  simp [this]
+
+/-- both binarisers, every non-empty size: exact or NotFound (the statement of the property) -/
+theorem hybrid_bilevel_exact_or_notfound (lum : Array Nat) (w h : Nat) (hw : 1 ≤ w) (hh : 1 ≤ h)
+    (hsz : lum.size = w * h) (hbi : Bilevel lum) :
+    hybridSets lum w h = .error .notFound ∨
+    ∃ sets, hybridSets lum w h = .ok sets ∧
+      (∀ X Y, (X, Y) ∈ sets → X < w ∧ Y < h) ∧
+      (∀ X Y, X < w → Y < h → ((X, Y) ∈ sets ↔ lum[Y * w + X]? = some 0)) := by
+  by_cases hbig : 40 ≤ w ∧ 40 ≤ h
+  · right; exact hybrid_bilevel_exact lum w h hbig.1 hbig.2 hsz hbi
+  · rw [hybrid_small_is_global lum w h (by omega)]
+    exact global_bilevel_exact_or_notfound lum w h hw hh hsz hbi
+
+/-- the black point estimate, when there is one, is a multiple of 8 in `[8, 240]` for a 32-bucket histogram
+    and lies strictly between the two peaks; the only failure is NotFound (never a panic) -/
+theorem estimateBlackPoint_range (buckets : List Nat) (hl : buckets.length = 32) :
+    estimateBlackPoint buckets = .error .notFound ∨
+    ∃ bp, estimateBlackPoint buckets = .ok bp ∧ 8 ≤ bp ∧ bp ≤ 240 := by
+  cases h : estimateBlackPoint buckets with
+  | error e =>
+    left
+    unfold estimateBlackPoint at h
+    simp only at h
+    split at h
+    · cases h; rfl
+    · cases h
+  | ok bp =>
+    right
+    obtain ⟨b1, b2⟩ := estimateBlackPoint_bounds buckets bp (by omega) h
+    exact ⟨bp, rfl, b1, by omega⟩
+
+/-- **Black rows of a pure black/white row** (`GetBlackRow`, the `-1 4 -1` sharpening filter): NotFound, or
+    a row of the same width in which pixel `i` is black iff its luminance is 0 and — for rows of at least
+    3 pixels — it is not one of the two border pixels (which the filter never sets). -/
+theorem blackRow_bilevel (row : List Nat) (hbi : ∀ p ∈ row, p = 0 ∨ p = 255) :
+    blackRow row = .error .notFound ∨
+    ∃ bits, blackRow row = .ok bits ∧ bits.length = row.length ∧
+      ∀ i (hi : i < row.length), bits[i]? =
+        some (decide (row[i] = 0 ∧ (row.length < 3 ∨ (0 < i ∧ i + 1 < row.length)))) := by
+  cases h : blackRow row with
+  | error e => left; rw [blackRow_error row e h]
+  | ok bits =>
+    right
+    refine ⟨bits, rfl, ?_⟩
+    unfold blackRow at h
+    split at h
+    · cases h
+    · rename_i bp hbp
+      have hl : (histogram row).length = 32 := by simp [histogram, LUMINANCE_BUCKETS]
+      obtain ⟨b1, b2⟩ := estimateBlackPoint_bounds _ bp (by omega) hbp
+      rw [hl] at b2
+      split at h
+      · -- width < 3: plain threshold
+        rename_i hlt
+        cases h
+        refine ⟨by simp, ?_⟩
+        intro i hi
+        have hp := hbi row[i] (List.getElem_mem hi)
+        simp only [List.getElem?_map, List.getElem?_eq_getElem hi, Option.map_some, hlt, true_or, and_true]
+        rcases hp with hp | hp <;> simp [hp] <;> omega
+      · rename_i hge
+        cases h
+        have hsl := sharpen_length bp (row.map (· % 256))
+        simp only [List.length_map] at hsl
+        refine ⟨by simp [hsl]; omega, ?_⟩
+        intro i hi
+        have hnlt : ¬ row.length < 3 := hge
+        simp only [hnlt, false_or]
+        by_cases h0 : i = 0
+        · subst h0; simp
+        · by_cases hlast : i + 1 = row.length
+          · have : i = (sharpen bp (row.map (· % 256))).length + 1 := by omega
+            rw [List.cons_append, List.getElem?_cons, if_neg h0]
+            rw [List.getElem?_append_right (by omega)]
+            have e : i - 1 - (sharpen bp (row.map (· % 256))).length = 0 := by omega
+            rw [e]
+            simp; omega
+          · -- interior pixel
+            obtain ⟨j, rfl⟩ : ∃ j, i = j + 1 := ⟨i - 1, by omega⟩
+            have hj : j + 2 < (row.map (· % 256)).length := by simp; omega
+            rw [List.cons_append, List.getElem?_cons_succ, List.getElem?_append_left (by omega)]
+            rw [sharpen_get bp _ j hj]
+            simp only [List.getElem_map]
+            have ha := hbi row[j] (List.getElem_mem (by omega))
+            have hb := hbi row[j + 2] (List.getElem_mem (by omega))
+            have hc := hbi row[j + 1] (List.getElem_mem (by omega))
+            have m : ∀ p, (p = 0 ∨ p = 255) → p % 256 = p := by intro p hp; rcases hp with rfl | rfl <;> rfl
+            rw [m _ ha, m _ hb, m _ hc]
+            rw [sharpen_bilevel_decision bp b1 (by omega) _ _ _ ha hb hc]
+            have : 0 < j + 1 ∧ j + 1 + 1 < row.length := by omega
+            simp [this]
 
 end Gzx.Properties.C17
